@@ -9,7 +9,7 @@
     the byte stream (bitio_roundtrip, bitio_same_widths). *)
 From Coq Require Import ZArith List Bool String Lia.
 Require Import H4.gen.Gen_Comp H4.CompSpec H4.CompRleModel H4.CompRleProofs H4.CompCodecModel H4.CompCodecProofs
-  H4.CompBitioProofs H4.CompBitbufModel H4.CompBitbufProofs H4.CompNbitProofs.
+  H4.CompBitioProofs H4.CompBitbufModel H4.CompBitbufProofs H4.CompNbitProofs H4.CompSkpProofs.
 Import ListNotations.
 Local Open Scope Z_scope.
 Notation concat := List.concat.
@@ -89,16 +89,38 @@ Theorem nbit_bitstream : forall size start len se fo bytes,
 Proof. exact nbit_bitstream_lemma. Qed.
 Print Assumptions nbit_bitstream.
 
-(** Skipping Huffman.  PARTIAL: (a) from the initial tree every one of the 256 symbols decodes to itself and the
-    decoder consumes exactly the code (complete finite domain); (b) lock-step: if the walk returns the encoded
-    symbol, decoder and encoder continue with the same trees.  MISSING: skp_splay preserves the tree invariant
-    (up is the inverse of left/right, every leaf reachable from ROOT), which gives the hypothesis of (b) for
-    every reachable tree and hence the round trip for every byte list and skip size. *)
-Theorem skphuff_first_symbol_partial : forall c, 0 <= c < 256 -> skp_first_symbol_case c = true.
-Proof. exact skp_first_symbol_lemma. Qed.
-Print Assumptions skphuff_first_symbol_partial.
+(** Skipping Huffman, full strength.  The tree invariant [twf] (the 512 nodes occupy the 512 child slots, [up] is the
+    inverse of left/right, every node reaches ROOT along the parent pointers) holds for the initial tree and is
+    preserved by the semi-splay for every symbol; in every such tree the walk down from ROOT along the code of a
+    symbol reaches that symbol's leaf and consumes exactly the code (fuel 600 is never exhausted: the walk to ROOT
+    visits distinct nodes, so it is shorter than 512). *)
+Theorem skphuff_tree_invariant : twf tree_init /\
+  forall t b suffix, twf t -> 0 <= b < 256 ->
+    skp_walk_down 600 t ROOT (skp_code t b ++ suffix) = Some (b, suffix) /\ twf (skp_splay t b).
+Proof. exact (conj tree_init_twf skp_code_decodes_lemma). Qed.
+Print Assumptions skphuff_tree_invariant.
 
-Theorem skphuff_lockstep_partial : forall trees pos b rest bits n,
+(** Round trip: for EVERY byte list and EVERY skip size >= 1 the decoder returns the bytes that were encoded (the
+    decoder is asked for exactly that many symbols; no fuel is exhausted). *)
+Theorem skphuff_roundtrip : forall skip bytes, 1 <= skip -> Forall byte bytes ->
+  skp_decode skip (skp_encode skip bytes) (zlen bytes) = Some bytes.
+Proof. exact skp_roundtrip_lemma. Qed.
+Print Assumptions skphuff_roundtrip.
+
+(** The same on the bit stream with anything behind it (further symbols of later write calls, padding). *)
+Theorem skphuff_prefix_roundtrip : forall skip bytes more, 1 <= skip -> Forall byte bytes ->
+  skp_decode_bits (List.length bytes) (repeat tree_init (Z.to_nat skip)) 0
+    (skp_encode_bits (repeat tree_init (Z.to_nat skip)) 0 bytes ++ more) = Some bytes.
+Proof. exact skp_prefix_lemma. Qed.
+Print Assumptions skphuff_prefix_roundtrip.
+
+(** Earlier partial results, now corollaries kept for the record: every symbol from the initial tree (finite
+    sweep), and the lock-step induction step. *)
+Theorem skphuff_first_symbol : forall c, 0 <= c < 256 -> skp_first_symbol_case c = true.
+Proof. exact skp_first_symbol_lemma. Qed.
+Print Assumptions skphuff_first_symbol.
+
+Theorem skphuff_lockstep : forall trees pos b rest bits n,
   (forall suffix, skp_walk_down 600 (nth pos trees tree_init) ROOT (skp_code (nth pos trees tree_init) b ++ suffix)
                   = Some (b, suffix)) ->
   skp_decode_bits (S n) trees pos (skp_encode_bits trees pos (b :: rest) ++ bits) =
@@ -110,7 +132,7 @@ Theorem skphuff_lockstep_partial : forall trees pos b rest bits n,
   | Some r => Some (b :: r)
   end.
 Proof. exact skp_lockstep_lemma. Qed.
-Print Assumptions skphuff_lockstep_partial.
+Print Assumptions skphuff_lockstep.
 
 (** Deflate: zlib is external code; under the stated hypothesis about it the session round-trips. *)
 Theorem deflate_roundtrip_under_zlib :
@@ -203,5 +225,5 @@ Example nbit_example :
   nbit_project 2 9 4 true true [1; 255; 2; 64] = [1; 255; 254; 127].
 Proof. vm_compute. repeat split. Qed.
 
-Example skphuff_example : skp_decode 2 (skp_encode 2 [5; 5; 5; 200; 5; 0; 255; 255]) 8 = Some [5; 5; 5; 200; 5; 0; 255; 255].
-Proof. vm_compute. reflexivity. Qed.
+Example skphuff_example : (1 <= 2 /\ Forall byte [5; 5; 5; 200; 5; 0; 255; 255]) /\ skp_decode 2 (skp_encode 2 [5; 5; 5; 200; 5; 0; 255; 255]) 8 = Some [5; 5; 5; 200; 5; 0; 255; 255].
+Proof. split; [split; [lia | repeat constructor; unfold byte; lia] | vm_compute; reflexivity]. Qed.
